@@ -50,13 +50,14 @@ def cliOp (args impl : List String) : Option (String × String) := do
     | .err => "reject"
     | .crash => "crash"
   let out (k : String) : String := ((o.find? (·.1 = k)).map (·.2)).getD "?"
-  -- a users stage of a config file brings its own worker count; rate stages share limits.concurrency
+  -- config file: every stage has its own pool (a users stage its own worker count, a rate stage limits.concurrency) and a
+  -- rate stage does not wait for its iterations in flight, so consecutive stages can overlap: the bound is the sum
   let flightBound (conc : Int) : Int :=
     if isFile then
       (((get "fstages").getD "").splitOn ";").foldl (fun (acc : Int) (st : String) =>
         match st.splitOn ":" with
-        | ["u", _, k] => max acc (k.toInt?.getD 0)
-        | _ => acc) conc
+        | ["u", _, k] => acc + (k.toInt?.getD 0)
+        | _ => acc + conc) 0
     else conc
   let n (k : String) : Int := (out k).toInt?.getD (-1)
   let triple (k : String) : List Int := ((out k).splitOn "/").map fun (x : String) => x.toInt?.getD (-1)
